@@ -7,8 +7,8 @@ BASELINE_OFF = "cd /repo && go test -mod=mod -json -vet=off -count=1 -timeout 25
 
 # id -> (technique, level text, design ref, level note)
 CLAIMED = {
- "C05": ("decision-table extraction from SSA paths (transition, step, fireTransition, emit) compared cell-by-cell with the E37 table; who-may-write enumeration of supervisor.state; dominance ordering in Close",
-         "Structural necessary conditions of the E37 state behaviour decided for every path/writer in the source: the full transition and step decision tables, the complete writer set of the state word, the notification chain's single-sender/ordering shape and Close's fence→requestClose→wait→stop ordering. Does not decide interleavings or timing.",
+ "C05": ("decision-table extraction from SSA paths (transition, step, fireTransition, emit) compared cell-by-cell with the E37 table, state writes read through the function supervisor.State applies to the raw word (extracted on every run); who-may-write enumeration of supervisor.state; post-close value set of the word versus the old value of every commit CAS; dominance ordering in Close",
+         "Structural necessary conditions of the E37 state behaviour decided for every path/writer in the source: the full transition and step decision tables, the complete writer set of the state word, what State() reports for every word the code can store, that no write outside the event loop can succeed once the close event has been handled, the notification chain's single-sender/ordering shape and Close's fence→requestClose→wait→stop ordering. Does not decide interleavings or timing.",
          "§4 C05"),
  "C07": ("path enumeration of every send entry point with gate-decision/effect linearisation; who-may-call/send/receive chokepoint enumeration; dispatchFrame decision table (data arm); dominance of the synchronous Selected commit",
          "Decides for every path of sendWaitReply/sendNoReply/SendAsync/writeFrame that each write/enqueue follows a 'not data' or 'Selected' decision and a live-epoch decision, that the refusing branch returns the not-selected error after exactly one counted drop and no effect, that bytes can reach a socket only through those chokepoints, and the inbound not-selected reject table and commit-before-response ordering. Histories leading to not-selected and State() accuracy are not decided here.",
